@@ -345,6 +345,11 @@ func (c *Ctx) judgePath(dv *deepView, fn *ssa.Function, open ssa.CallInstruction
 	}
 	switch {
 	case len(lang) == 5 && isDir(lang[0]) && lang[1].kind == "lit" && lang[1].lit == "/" && isParam(lang[2], nameP) && lang[3].kind == "lit" && lang[3].lit == "-" && isGUIDText(lang[4]):
+		if lang[2].folded != "" {
+			// the name reaches the path through a case conversion: variable names are case-sensitive
+			c.R.Violf("F4.path", fname, "OpenFile.name", c.IPos(open), what, "the variable name is put into the path through "+lang[2].folded+": PK, KEK, BootOrder … are looked up under another name than they were written under (names are case-sensitive; only the GUID text is lower-case)")
+			return
+		}
 		c.R.Okf("F4.path", fname, "OpenFile.name", c.IPos(open), what)
 		return
 	case opaque:
